@@ -54,6 +54,12 @@ def fault_vectors(tier, TT, TL):
                 vs.append(dict(sink=sink, mode=mode, limit=0, items=items, batch=37))
             for lim in (0, 1, 100, 1000, 4096, 20000):
                 vs.append(dict(sink=sink, mode="fsize", limit=lim, items=items, batch=37))
+    # paths whose creation fails with "no such file" although their directory exists: a dangling symbolic link, the
+    # empty path (a writer that "creates the missing directory and retries" must give up)
+    for sink, T in (("stl", TT), ("3mf", TT), ("dxf", TL), ("svg", TL)):
+        for items in (0, 1, T + 1):
+            for mode in ("dangling", "emptypath"):
+                vs.append(dict(sink=sink, mode=mode, limit=0, items=items, batch=37))
     # real renderers (no scripted producer): the call must return whatever the lattice size -
     # layers of exactly 1, 2, 3, 4 evaluation batches, and just off them
     for d in ([3, 6, 6], [3, 8, 8], [3, 10, 10], [2, 8, 18], [2, 15, 15], [2, 13, 18], [2, 18, 18], [2, 8, 8], [2, 7, 8], [2, 8, 9]):
@@ -132,6 +138,24 @@ def run(chk, replay_rec):
     bad = chk.validate("FaultTrace", obs, chunks=1, timeout=900)
     chk.traces += len(obs)
     incon = list(getattr(chk, "last_drift", []))
+    # a run that neither returned nor is blocked in a channel operation: slow, or spinning?  A scripted producer of a
+    # few hundred items has nothing to compute: run it again alone with four times the watchdog; still not back =
+    # the call does not return (a busy loop is no better than a blocked send).
+    still = []
+    for e in incon:
+        v = e["vec"]
+        if v.get("real"):
+            still.append(e)
+            continue
+        o2 = [json.loads(x) for x in chk.vh(["c12-replay", "32"], stdin=json.dumps(v) + "\n", timeout=600).splitlines() if x.strip()]
+        if len(o2) == 1 and not o2[0]["returned"]:
+            chk.violation(key_of(e, "did-not-return-and-is-not-blocked") + ":limit%d:items%d" % (v["limit"], v["items"]),
+                          "real %s call did not return within 32 s although the producer has only %d items to hand over and no "
+                          "goroutine is blocked in a send (busy loop?): mode=%s; last events %s" % (
+                              v["sink"], v["items"], v["mode"], o2[0]["events"][-4:]), dict(vector=v))
+        else:
+            still.append(e)
+    incon = still
     for e, why in bad:
         v = e["vec"]
         chk.violation(key_of(e, why) + ":limit%d:items%d" % (v["limit"], v["items"]),
